@@ -65,7 +65,116 @@ class CtcpQuoteChar(_QuoteChar):
     canaries = [("for c in (X_QUOTE, X_DELIM):", "for c in (X_DELIM, X_QUOTE):", "escape_table_and_no_raw_special_character")]
 
 
-CONTRACTS = [LowQuoteChar, CtcpQuoteChar]
+
+# -- the rate-limited send queue (lineRate) ---------------------------------------------------------------------------
+
+
+def _really(I, client, line):
+    ctx().emit("wire", client, (line,))
+
+
+def _call_later(I, *args):
+    # reactor.callLater(lineRate, self._sendLine): the hook of a bound method of a real object gets no receiver
+    delay, fn = args[-2], args[-1]
+    c = ctx()
+    c.emit("callLater", None, (delay, fn))
+    return c.ghost["$contract"].opaque("delayedcall")
+
+
+QUEUE_CALLS = {"IRCClient._reallySendLine": _really, "reactor.callLater": _call_later, "callLater": _call_later,
+               "ReactorBase.callLater": _call_later, "EPollReactor.callLater": _call_later, "SelectReactor.callLater": _call_later}
+
+
+def _client(c, rate, queue, emptying):
+    return c.make(irc.IRCClient, lineRate=rate, _queue=list(queue), _queueEmptying=emptying)
+
+
+class DrainStep(Contract):
+    """IRCClient._sendLine: with lines queued, the oldest goes to the wire and the next step is scheduled lineRate
+    later; with the queue empty the drain is marked as stopped (_queueEmptying None), so that the next sendLine()
+    starts it again (seeded change C43-3)."""
+    prop = "C43"
+    module = "twisted.words.protocols.irc"
+    function = "IRCClient._sendLine"
+    differential = False
+    calls = QUEUE_CALLS
+    inputs = dict(n=OneOf(0, 1, 2, 3), l0=Str(small_len=1), l1=Str(small_len=1), l2=Str(small_len=1), rate=Int(lo=0, small=[1, 2]))
+
+    def setup(self, i):
+        lines = [i.l0, i.l1, i.l2][: i.n]
+        cl = _client(self, i.rate, lines, self.opaque("olddelayedcall"))
+        return dict(self=cl, args=[], objs=dict(cl=cl), ghost=dict(lines=lines))
+
+    def bounded_inputs(self, tier):
+        return iter(())
+
+    raises = ()
+
+    def _step(S):
+        cl, lines = S.new.cl, S.ghost["lines"]
+        wire = [e for e in S.trace if e.name == "wire"]
+        later = [e for e in S.trace if e.name == "callLater"]
+        if not lines:
+            return band(len(wire) == 0, len(later) == 0, cl._queueEmptying is None, len(cl._queue) == 0)
+        if len(wire) != 1 or len(later) != 1:
+            return False
+        return band(wire[0].args[0] is lines[0], len(cl._queue) == len(lines) - 1,
+                    all(a is b for a, b in zip(cl._queue, lines[1:])), later[0].args[0] == S.i.rate,
+                    cl._queueEmptying is not None, cl._queueEmptying is not S.old.cl._queueEmptying)
+
+    ensures = dict(oldest_line_sent_next_step_scheduled_or_drain_marked_stopped=_step)
+    canaries = [("        else:\n            self._queueEmptying = None", "        else:\n            pass",
+                 "oldest_line_sent_next_step_scheduled_or_drain_marked_stopped"),
+                ("self._queue.pop(0)", "self._queue.pop()", "oldest_line_sent_next_step_scheduled_or_drain_marked_stopped")]
+
+
+class QueueOrSend(Contract):
+    """IRCClient.sendLine: without a rate the line goes out at once; with one it is queued at the tail and the drain is
+    started exactly when none is running -- so a queued line always has a drain step pending"""
+    prop = "C43"
+    module = "twisted.words.protocols.irc"
+    function = "IRCClient.sendLine"
+    also = ["IRCClient._sendLine"]
+    differential = False
+    calls = QUEUE_CALLS
+    inputs = dict(rated=ForkBool(), draining=ForkBool(), n=OneOf(0, 1, 2), l0=Str(small_len=1), l1=Str(small_len=1), line=Str(small_len=1))
+
+    def requires(self, i):
+        # the invariant of the queue: lines wait only while a drain step is pending
+        return band(i.draining or i.n == 0, i.rated or (i.n == 0 and not i.draining))
+
+    def setup(self, i):
+        lines = [i.l0, i.l1][: i.n]
+        cl = _client(self, 1 if i.rated else None, lines, self.opaque("olddelayedcall") if i.draining else None)
+        return dict(self=cl, args=[i.line], objs=dict(cl=cl), ghost=dict(lines=lines))
+
+    def bounded_inputs(self, tier):
+        return iter(())
+
+    raises = ()
+
+    def _queued(S):
+        cl, lines = S.new.cl, S.ghost["lines"]
+        wire = [e for e in S.trace if e.name == "wire"]
+        later = [e for e in S.trace if e.name == "callLater"]
+        if not S.i.rated:
+            return band(len(wire) == 1, wire[0].args[0] is S.i.line or veq(wire[0].args[0], S.i.line), len(later) == 0, len(cl._queue) == 0)
+        if S.i.draining:
+            return band(len(wire) == 0, len(later) == 0, len(cl._queue) == len(lines) + 1,
+                        cl._queueEmptying is S.old.cl._queueEmptying)
+        # nothing was pending: the line goes out now and the next step is scheduled
+        return band(len(wire) == 1, len(later) == 1, len(cl._queue) == 0, cl._queueEmptying is not None)
+
+    def _inv(S):
+        cl = S.new.cl
+        return bool(len(cl._queue) == 0 or cl._queueEmptying is not None)
+
+    ensures = dict(sent_at_once_or_queued_behind_a_pending_drain=_queued, a_waiting_line_has_a_drain_step_pending=_inv)
+    canaries = [("            if not self._queueEmptying:\n                self._sendLine()", "            pass",
+                 "a_waiting_line_has_a_drain_step_pending")]
+
+
+CONTRACTS = [LowQuoteChar, CtcpQuoteChar, DrainStep, QueueOrSend]
 BOUNDED = bounded("C43")
 _SCOPE = ("IRCClient.msg / notice / say and the low-level / CTCP quoting on the real code: exhaustive texts up to 5-6 characters over "
           "alphabets with blanks, CR, LF, multi-byte characters and the quoting metacharacters, all relevant limits, seeded random "
